@@ -111,6 +111,17 @@ fn main() {
         PHASE.store(0, Ordering::Relaxed);
         // decode again under each phase too: the decoder's buffers are heap buffers as well
         let reference = ops(map);
+        // control: the same placement once more (a difference here is plain nondeterminism, not address dependence)
+        let again = ops(&map.clone());
+        for ((op, a), (_, b)) in reference.iter().zip(&again) {
+            cases += 1;
+            if a != b {
+                diffs += 1;
+                if diffs <= 8 {
+                    println!("PHASE-NONDET\t{name}\t{op}\ttwo executions under the same placement: digest {a:x}, then {b:x}");
+                }
+            }
+        }
         for phase in [8usize, 16, 24, 32, 40, 48, 56] {
             PHASE.store(phase, Ordering::Relaxed);
             let fresh = map.clone();
